@@ -205,4 +205,5 @@ func extractC06Deep(l *lean, _, _ *ast.File) {
 		return true
 	})
 	l.def("sha256HashSize", "Nat", c06NatOr(hs, hsOK, "sha256HashSize"), hs)
+	extractC06AlgFit(l)
 }
